@@ -49,6 +49,9 @@ def callee_map(prop):
             pc = verify.parsed(cd)
             if pc.options.get('callable'):
                 out.setdefault(tgt, []).append(cd)
+    for tgt in out:
+        # contracts stated for this property come before contracts imported from another property's file
+        out[tgt].sort(key=lambda cd: 0 if prop in (getattr(cd, 'props', None) or [prop]) else 1)
     return out
 
 
